@@ -1558,16 +1558,42 @@ fn close_attempt(world: &mut World, wg: &mut WorldGhost, ch: &mut ChanGhost, rng
                          "intended": a.json(), "mutations": lab.muts,
                          "labels": [lab.script_kind, lab.value_class, lab.fee_class]});
         cands = phase1_candidates(&tx, &opaths);
-        res = run_chan(world, &ch.id, |chan| chan.sign_mutual_close_tx(&tx, &opaths));
+        // one attempt in eight meets a store that is unavailable for one write ("temporarily unavailable, might
+        // work later"): the request fails without a signature and the node sends it again
+        let inject = rng.chance(1, 8);
+        if inject {
+            world.store.arm_faults(0, 1);
+        }
+        let first = run_chan(world, &ch.id, |chan| chan.sign_mutual_close_tx(&tx, &opaths));
+        let fired = if inject { world.store.disarm_faults() } else { 0 };
+        res = if fired > 0 && !matches!(first, Ok(_)) {
+            r.count("storage_fault.close_request_failed_at_the_store_and_was_retried");
+            run_chan(world, &ch.id, |chan| chan.sign_mutual_close_tx(&tx, &opaths))
+        } else {
+            first
+        };
         submitted = Some(tx);
     } else {
         entry = "sign_mutual_close_tx_phase2";
         request = json!({"args": a.json(), "mutations": lab.muts, "labels": [lab.script_kind, lab.value_class, lab.fee_class]});
         cands = vec![a.clone()];
         let a2 = a.clone();
-        res = run_chan(world, &ch.id, |chan| {
+        let inject = rng.chance(1, 8);
+        if inject {
+            world.store.arm_faults(0, 1);
+        }
+        let first = run_chan(world, &ch.id, |chan| {
             chan.sign_mutual_close_tx_phase2(a2.to_holder, a2.to_cp, &a2.holder_script, &a2.cp_script, &a2.path)
         });
+        let fired = if inject { world.store.disarm_faults() } else { 0 };
+        res = if fired > 0 && !matches!(first, Ok(_)) {
+            r.count("storage_fault.close_request_failed_at_the_store_and_was_retried");
+            run_chan(world, &ch.id, |chan| {
+                chan.sign_mutual_close_tx_phase2(a2.to_holder, a2.to_cp, &a2.holder_script, &a2.cp_script, &a2.path)
+            })
+        } else {
+            first
+        };
         submitted = None;
     }
     for m in &lab.muts {
